@@ -593,6 +593,16 @@ def run(ck):
     ck.ob('PROV-sections', ff.loc(plk), ok and len(conflict) == 1, 'a link / modification [ atoms ] line defines the atom under its normalised key with its own attributes, then the link-wide ones, '
           'then what an earlier line said, then the defaults; a contradiction with an earlier definition is an error', key='PROV-sections|link-atom')
     link_atom_name_rule(ck)
+    # the metadata of an interaction line (`{..}` at its end) and of a `#meta` line is plain JSON: what is loaded is the declared value, a string stays a string
+    # (the atom-attribute reader turns "a|b" into a Choice predicate: right for atom conditions, wrong for a comment or a group name)
+    for qual_, target_ in (('_base_parser', 'meta'), ('_parse_meta', 'attributes')):
+        fn_ = ck.need(ff.functions.get(qual_), 'ffinput.{} vanished'.format(qual_))
+        ck.analysed(ff, fn_)
+        loads = [d_ for d_ in assignments_to(fn_, target_) if isinstance(d_, ast.Call)]
+        from_json = [d_ for d_ in loads if call_name(d_) == 'json.loads']
+        other = [u(d_)[:50] for d_ in loads if call_name(d_) not in ('json.loads', 'dict') and 'ChainMap' not in u(d_)]
+        ck.ob('PROV-sections', ff.loc(fn_), len(from_json) == 1 and not other, '{}: the metadata token is read with json.loads and nothing else ({} json.loads, other readers: {})'.format(
+            qual_, len(from_json), other), key='PROV-sections|meta-is-json|' + qual_)
     # ------------------------------------------------------------- #ifdef / #ifndef / #else / #endif: the condition recorded on the lines that follow
     pp = ck.need(method(itpd, 'parse_pragma'), 'ITPDirector.parse_pragma vanished')
     ck.analysed(itp, pp)
@@ -837,7 +847,7 @@ def prefix_order_table(ck, ff):
     helpers = {}
     for name in fns:
         helpers[name] = make(name)
-    refs = ['BB', '+BB', '++BB', '-BB', '--BB', '>BB', '>>BB', '<BB', '<<BB', '*BB', '**BB', '+', '>>', '', '+-BB', '><BB', 'B+B', '-1']
+    refs = ['BB', '+BB', '++BB', '-BB', '--BB', '>BB', '>>BB', '<BB', '<<BB', '*BB', '**BB', '+', '>>', '', '+-BB', '><BB', 'B+B', '-1', 'CA+', '+CA+', 'CL-', '-NA+', '>C*']
     orders = ['absent', None, 1, 2, -1, -2, 0, '>', '>>', '<', '<<', '*', '**', True, False, 'x', '+', '><', '', 1.0]
     bad = []
     n = 0
